@@ -352,7 +352,7 @@ static void gen_program(uint64_t rseed, uint64_t idx, const char *tier, sbuf_t *
   int thorough = !strcmp(tier, "thorough");
   const char *fam = FAMS[idx % NFAM];
   int maxd = thorough ? 2200 : 700;
-  long l3s[] = { 65536, 131072, 262144, 1048576, 4194304, 67108864 };
+  long l3s[] = { 65536, 131072, 262144, 1048576, 4194304, 67108864, 536870912, 1073741824 }; /* the last two: stacked-cache server parts */
   long focus_l3 = l3s[rng_below(&r, 3)]; /* operand shapes are placed around the thresholds of a small L3 */
   int full = (int)rng_below(&r, 2);
   sb_printf(o, "# m4sim engine=cfg scenario=%s\n", fam);
@@ -365,7 +365,7 @@ static void gen_program(uint64_t rseed, uint64_t idx, const char *tier, sbuf_t *
      huge   - all dimensions just above 4096, where the automatic k of M4RM reaches its upper end for L2 sizes of 1.5..4 MiB. */
   uint64_t ord = idx / NFAM;
   int sliver = ord % 8 == 5, huge = !sliver && ord % 32 == 7 && (!strcmp(fam, "product") || !strcmp(fam, "accumulate"));
-  int tiny = 1 + (int)rng_below(&r, 8), big = 21846 + (int)rng_below(&r, 5000);
+  int tiny = rng_chance(&r, 1, 3) ? 16 + (int)rng_below(&r, 6) : 1 + (int)rng_below(&r, 8), big = rng_chance(&r, 1, 3) ? 65473 + (int)rng_below(&r, 4500) : 21846 + (int)rng_below(&r, 5000);
   if (rng_chance(&r, 1, 2)) tiny = 1 + (int)rng_below(&r, 3);
   if (sliver) focus_l3 = 65536;
   if (!strcmp(fam, "product") || !strcmp(fam, "accumulate")) {
@@ -420,7 +420,7 @@ static void gen_program(uint64_t rseed, uint64_t idx, const char *tier, sbuf_t *
   long cuts[] = { 0, 64, 128, 192, 256, 512, 1024, 2048, 100 };
   for (int i = 0; i < ncfg; i++) {
     const char *vn = i == 0 ? "s_c_q" : ALLV[rng_below(&rc, 8)];
-    long l1 = l1s[rng_below(&rc, 5)], l2 = l2s[rng_below(&rc, huge ? 8 : 5)], l3 = rng_chance(&rc, 1, 2) ? focus_l3 : l3s[rng_below(&rc, 6)];
+    long l1 = l1s[rng_below(&rc, 5)], l2 = l2s[rng_below(&rc, huge ? 8 : 5)], l3 = rng_chance(&rc, 1, 2) ? focus_l3 : l3s[rng_below(&rc, 8)];
     if (i == 0) { l1 = 32768; l2 = 1310720; l3 = 56623104; } /* knob build at the shipped sizes: isolates the variant axis */
     if (sliver && i > 0 && i % 2) l3 = 65536;
     if (huge && i > 0 && i % 2) { l2 = l2s[4 + rng_below(&rc, 4)]; if (l3 < 8388608) l3 = 8388608; }
@@ -439,6 +439,7 @@ static const char *classify(const child_res_t *cr) {
   if (sim_shared->aux[1]) return "SKIPPED";
   if (sim_shared->aux[6]) return "region_never_joins";
   if (cr->fate == FATE_TIMEOUT && sim_shared->aux[5]) return "no_result_under_some_configuration"; /* the shipped configuration returned, a varied one did not within the CPU limit */
+  if (cr->fate != FATE_EXIT0 && sim_shared->aux[5]) { static char b[80]; snprintf(b, sizeof b, "%s_under_some_configuration", fate_names[cr->fate]); return b; } /* ... or died: no result either */
   if (cr->fate != FATE_EXIT0) { static char b[64]; snprintf(b, sizeof b, "faultfree_%s", fate_names[cr->fate]); return b; }
   if (!sim_shared->completed) return "incomplete";
   return sim_shared->aux[3] == 2 ? "HARNESS_knob_mechanism_mismatch" : sim_shared->aux[3] ? "result_depends_on_configuration" : "ok";
